@@ -24,6 +24,8 @@ def plan(tier):
             shards.append(("t32", cube, 0, 0, 6, cap))
     for blk in range(8):
         shards.append(("fetch", blk))
+    for k in range(4):
+        shards.append(("xiset", k))
     return {
         "shards": shards,
         "rule": "Thumb-16: every halfword x IT context x carry: decode + from_bitarray vs table (class, every operand); "
@@ -43,6 +45,8 @@ def run_shard(arg):
         t16(res, arg[1])
     elif arg[0] == "t32":
         t32(res, *arg[1:])
+    elif arg[0] == "xiset":
+        xiset(res, arg[1])
     else:
         fetch(res, arg[1])
     return res.as_dict()
@@ -76,6 +80,40 @@ def t32(res, cube, it, carry, ver, cap):
     if t.words + t.capped_words != 1 << (32 - bin(cube[0]).count("1")):
         res.fail("engine: tiling", "leaves of cube %r do not add up" % (cube,))
     res.sample({"cube": [hex(cube[0]), hex(cube[1])], "it": it, "carry": carry, "leaves": t.leaves})
+
+
+def xiset(res, k):
+    """Decode must not depend on history: on ONE processor every 32-bit word of the harvested alphabet (both instruction
+    sets) and its single-bit variants is decoded as ARM, as Thumb, and as ARM again; each verdict must be the table's."""
+    from ..ref.enc import A32
+    dA = decodecheck.Decoder(A32, {"arch_version": 7}, 0, 0)
+    dT = decodecheck.Decoder(T32, {"arch_version": 7}, 0, 0)
+    dT.cpu = dA.cpu
+    regs = dA.cpu.registers
+    words = sorted({w for t, olen, w, c in isa.harvest_words() if olen == 32})
+    variants = []
+    for i, w in enumerate(words):
+        if i % 4 != k:
+            continue
+        variants.append(w)
+        variants += [w ^ (1 << b) for b in range(32)]
+    for w in variants:
+        for dec in (dA, dT, dA, dT):
+            if dec is dT and (w >> 27) not in (0b11101, 0b11110, 0b11111):
+                continue
+            regs.cpsr.t = 1 if dec.thumb else 0
+            regs.cpsr.it = 0
+            regs.cpsr.c = 0
+            res.cases += 1
+            res.transitions += 1
+            try:
+                results = (dec.impl(w), dec.ref_verdict(w, dec.rows))
+            except Exception as e:  # noqa - C18
+                res.outcome("decode-raises-" + type(e).__name__)
+                continue
+            decodecheck.compare_leaf(dec, 0xFFFFFFFF, w, dec.rows, res, "after-decoding-the-same-bits-in-the-other-instruction-set",
+                                     results)
+    res.sample({"cross_instruction_set_words": len(variants)})
 
 
 def fetch(res, blk):
